@@ -56,6 +56,10 @@ pub struct Ev {
     /// Alpha kinds: source / type mismatch
     pub wrong_source: bool,
     pub wrong_type: bool,
+    /// `TimeWindow::record` kind: this event goes in through `add_event` instead of `record` (a window filled both
+    /// ways); what `add_event` does with it is not judged, what the next `record` leaves behind is
+    #[serde(default)]
+    pub via_add: bool,
 }
 
 #[derive(Clone, Debug, Serialize, Deserialize)]
@@ -295,6 +299,12 @@ fn run_record(t: &WinTrace, obs: &mut Obs) -> Result<(), Violation> {
             }
         }
         max_seen = Some(max_seen.map_or(ts, |m| m.max(ts)));
+        if e.via_add {
+            let _ = w.add_event(mk_event(i, ts, e));
+            obs.count("probe.event_put_into_a_sliding_window_without_record");
+            prev = w.events().iter().map(|x| idx_of(&x.id)).collect();
+            continue;
+        }
         w.record(mk_event(i, ts, e));
         let now: Vec<usize> = w.events().iter().map(|x| idx_of(&x.id)).collect();
         let cutoff = ts.saturating_sub(d);
@@ -828,6 +838,7 @@ impl World for WindowWorld {
                     },
                     wrong_source: rng.chance(1, 12),
                     wrong_type: rng.chance(1, 12),
+                    via_add: false,
                 });
             }
         } else {
@@ -847,7 +858,7 @@ impl World for WindowWorld {
             }
             msgs.sort();
             for (_, _, ts) in msgs {
-                events.push(Ev { ts, field: field(rng), clock_adv: 0, wrong_source: false, wrong_type: false });
+                events.push(Ev { ts, field: field(rng), clock_adv: 0, wrong_source: false, wrong_type: false, via_add: false });
             }
         }
         let tick_pattern = if alpha && rng.chance(1, 3) { vec![*rng.pick(&[0u8, 1]), *rng.pick(&[0u8, 1, 2]), 0] } else { vec![] };
@@ -874,6 +885,12 @@ impl World for WindowWorld {
                 if matches!(e.field, Field::Int(_) | Field::Num(_)) && rng.chance(3, 4) {
                     e.field = Field::Frac(rng.below(8) as u8);
                 }
+            }
+        }
+        // one continuously sliding window in three is filled both ways: one event in five goes in through add_event
+        if kind == Kind::Record && rng.chance(1, 3) {
+            for e in events.iter_mut() {
+                e.via_add = rng.chance(1, 5);
             }
         }
         // one continuously sliding window in 40 has a duration that means "no bound"
